@@ -94,15 +94,37 @@ def gen_case(r, pid=None):
     comps = [dict(has_setup=r.random() < 0.7, has_enable=r.random() < 0.75, has_disable=r.random() < 0.75,
                   inherit=r.random() < 0.4, redeclare=r.random() < 0.5, preassign=r.random() < 0.3,
                   sm=r.random() < 0.25, hook=r.random() < 0.25) for _ in range(ncomp)]
+    # a second (third ...) component of the same class as an earlier one (left / right shooter)
+    for j in range(1, ncomp):
+        if r.random() < 0.2:
+            i0 = r.randrange(j)
+            while comps[i0].get("same_as") is not None:
+                i0 = comps[i0]["same_as"]
+            comps[j] = dict(comps[i0], same_as=i0)
     nfb_robot = r.choice([0, 0, 1, 2])
     fb_owners = [-1] * nfb_robot
+    fb_fn = list(range(nfb_robot))
+    own = {}
     for i in range(ncomp):
-        fb_owners += [i] * r.choice([0, 0, 1, 1, 2, 3])
+        src = comps[i].get("same_as")
+        if src is None:
+            k_ = r.choice([0, 0, 1, 1, 2, 3])
+            own[i] = list(range(len(fb_owners), len(fb_owners) + k_))
+            fb_fn += own[i]
+            fb_owners += [i] * k_
+        else:
+            own[i] = own[src]
+            fb_fn += own[src]          # the same getter functions, called on another instance
+            fb_owners += [i] * len(own[src])
     nattr = r.choice([1, 2, 2, 3]) if ncomp else 0
     marked = {}
     for i in range(ncomp):
         for a in range(nattr):
-            if r.random() < 0.5:
+            src = comps[i].get("same_as")
+            if src is not None:
+                if "%d,%d" % (src, a) in marked:
+                    marked["%d,%d" % (i, a)] = marked["%d,%d" % (src, a)]
+            elif r.random() < 0.5:
                 marked["%d,%d" % (i, a)] = r.choice([0, 1, 7, -3, 50])
     fms = r.random() < 0.7
     # ticks
@@ -130,7 +152,7 @@ def gen_case(r, pid=None):
         while cut > 1 and ticks[cut - 1][0] == "fms":
             cut -= 1
         ticks = ticks[:cut] + ["end"]
-    case = dict(ncomp=ncomp, comps=comps, fb_owners=fb_owners, teleop_in_auto=r.random() < 0.4,
+    case = dict(ncomp=ncomp, comps=comps, fb_owners=fb_owners, fb_fn=fb_fn, teleop_in_auto=r.random() < 0.4,
                 has_auto=r.random() < 0.7, fms=fms, nattr=nattr, marked=marked,
                 robot_split=(r.randrange(0, ncomp + 1) if ncomp and r.random() < 0.3 else 0),
                 ticks=ticks, raises=[], writes={}, fbval={})
